@@ -297,6 +297,17 @@ def traversal_rule(db, chk, uname, nmax):
                         o[:] = list(v)
                         return oref
             return NOT_HANDLED
+    # the donor convention of the multi-direction router for a node without receiver (does it
+    # register itself as its own donor?) is read off the router itself: interpret apply() on the
+    # scenario "no neighbour"
+    from .routers import run_router, Scenario, CENTRE
+    from ..interp import Sym
+    MULTI = "fastscapelib::multi_flow_router"
+    map_ = model.operator_impls(db, uname).get(MULTI, {}).get("apply")
+    if map_ is None:
+        raise AnalysisBroken("C06-F3: multi_flow_router apply() not instantiated in %s" % uname)
+    ws = run_router(map_, Scenario(False, False, []), Obj(MULTI, {"m_slope_exp": Sym("exp", "p")}))
+    self_donor = any(v == CENTRE for w in ws for v in w.tables["m_donors"].cells.values())
     n_sc = 0
     nbad = 0
     for multi in (False, True):
@@ -325,6 +336,9 @@ def traversal_rule(db, chk, uname, nmax):
                         # donors as the multi-direction router registers them (node order)
                         cnt = {}
                         for i, recs in enumerate(g):
+                            if not recs and self_donor:
+                                D[(i, cnt.get(i, 0))] = i
+                                cnt[i] = cnt.get(i, 0) + 1
                             for r in recs:
                                 D[(r, cnt.get(r, 0))] = i
                                 cnt[r] = cnt.get(r, 0) + 1
